@@ -285,7 +285,7 @@ Section Prog.
     m_nexts n d k h (m_query name args nx) = Some (hf, itf, ys, r) ->
     m_iclose hf itf = h                                         (* close() / del / drop after k answers *)
     /\ ithrow lclose hf itf = (h, IDone, RRaise)                (* the consumer throws into it *)
-    /\ (r <> RYield -> d <> 0 -> hf = h)                        (* exhausted, or an exception came out *)
+    /\ (r <> RYield -> hf = h)                                  (* exhausted, or an exception came out *)
     /\ Forall (fun y => exists nw, y = nw ++ h) ys.             (* at every answer: h untouched underneath *)
   Proof.
     intros H. unfold m_nexts, m_query in H.
